@@ -8,7 +8,7 @@ DST=/verif/seeded/$NAME
 mkdir -p $DST
 cp $WT/seed/patch.diff $WT/seed/meta.json $DST/ 2>/dev/null
 cp $WT/seed/demo_test.go $DST/demo_test.go.txt 2>/dev/null
-cd $WT && git checkout -q -- . && rm -f ${DEMO_DIR:-pkg}/zz_demo_test.go
+cd $WT && git reset -q && git checkout -q -- . && rm -f ${DEMO_DIR:-pkg}/zz_demo_test.go
 rm -rf /tmp/seed-hold-$NAME && mv $WT/seed /tmp/seed-hold-$NAME   # keep the demo out of ./...
 trap "mv /tmp/seed-hold-$NAME $WT/seed 2>/dev/null" EXIT
 git clean -fdq   # files added by the patch the author left applied
